@@ -6,4 +6,6 @@ MCNoFixedOps == << >>
 MCAlternate == << [type |-> "create", key |-> 1, val |-> "x", exp |-> 0], [type |-> "delete", key |-> 1, val |-> "-", exp |-> 0],
                   [type |-> "create", key |-> 1, val |-> "x", exp |-> 0], [type |-> "update", key |-> 1, val |-> "x", exp |-> 6],
                   [type |-> "create", key |-> 2, val |-> "x", exp |-> 0] >>
+\* every writer creates key 1 (racing creates over one tombstone / one missing key)
+MCCreateOnly == << [type |-> "create", key |-> 1, val |-> "x", exp |-> 0] >>
 ====
